@@ -250,6 +250,22 @@ theorem runScript_sim (rq : Req) (params : List Bytes) (fv : List Msg) (p p' : N
     have := act_sim rq params fv p p' s s' a h hp hp'
     simpa [runScript] using ih _ _ this.1 this.2.1 this.2.2
 
+theorem runScript_sim' {rq rq' : Req} {params params' : List Bytes} {fv fv' : List Msg} (p p' : Nat) {sc sc' : List Act}
+    (s s' : Live) (h1 : rq = rq') (h2 : params = params') (h3 : fv = fv') (h4 : sc = sc')
+    (h : s.core = s'.core) (hp : PoolClean s.reds) (hp' : PoolClean s'.reds) :
+    (runScript rq params fv p s sc).core = (runScript rq' params' fv' p' s' sc').core ∧
+    PoolClean (runScript rq params fv p s sc).reds ∧ PoolClean (runScript rq' params' fv' p' s' sc').reds := by
+  subst h1 h2 h3 h4
+  exact runScript_sim rq params fv p p' sc s s' h hp hp'
+
+theorem act_sim' {rq rq' : Req} {params params' : List Bytes} {fv fv' : List Msg} (p p' : Nat) (s s' : Live) (a : Act)
+    (h1 : rq = rq') (h2 : params = params') (h3 : fv = fv')
+    (h : s.core = s'.core) (hp : PoolClean s.reds) (hp' : PoolClean s'.reds) :
+    (act rq params fv p s a).core = (act rq' params' fv' p' s' a).core ∧
+    PoolClean (act rq params fv p s a).reds ∧ PoolClean (act rq' params' fv' p' s' a).reds := by
+  subst h1 h2 h3
+  exact act_sim rq params fv p p' s s' a h hp hp'
+
 theorem finish_core {s s' : Live} (h : s.core = s'.core) : finish s = finish s' := by
   obtain ⟨_, _, _, _, _, e6, _, e8⟩ := (core_eq_iff _ _).mp h
   simp [finish, e6, e8]
@@ -290,49 +306,6 @@ theorem flashStage_sim (F : RFacts) (hw : F.lc.flashDecodeWipes = true) (cookie 
 theorem writeValues_params (vs old : List Bytes) : readParams (writeValues vs old) vs.length = vs :=
   readParams_eq vs _
 
-theorem handle_sim (F : RFacts) (hw : F.lc.flashDecodeWipes = true) (c c' : Ctx) (reds reds' : List Redirect)
-    (rq : Req) (p p' : Nat) (h : CtxSim c c') (hp : PoolClean reds) (hp' : PoolClean reds') :
-    (handle F c reds rq p).1.core = (handle F c' reds' rq p').1.core ∧
-    (handle F c reds rq p).2.1 = (handle F c' reds' rq p').2.1 ∧
-    (handle F c reds rq p).2.2.1.vis = (handle F c' reds' rq p').2.2.1.vis ∧
-    (handle F c reds rq p).2.2.2.2 = (handle F c' reds' rq p').2.2.2.2 ∧
-    PoolClean (handle F c reds rq p).1.reds ∧ PoolClean (handle F c' reds' rq p').1.reds := by
-  have ho : outcome rq c.methodInt c.indexRoute c.matched = outcome rq c'.methodInt c'.indexRoute c'.matched := by
-    rw [h.methodInt, h.indexRoute, h.matched]
-  have hs := start_core h reds reds'
-  have hps : PoolClean (Live.start c reds).reds := hp
-  have hps' : PoolClean (Live.start c' reds').reds := hp'
-  have fsim := flashStage_sim F hw rq.flash p p' _ _ c.flash c'.flash hs h.flash hps hps'
-  obtain ⟨f1, f2, f3, f4⟩ := fsim
-  -- the state after the middleware
-  have hmw : ({ (flashStage F rq.flash p (Live.start c reds) c.flash).1 with
-                 resp := { (flashStage F rq.flash p (Live.start c reds) c.flash).1.resp with mw := true } } : Live).core =
-             ({ (flashStage F rq.flash p' (Live.start c' reds') c'.flash).1 with
-                 resp := { (flashStage F rq.flash p' (Live.start c' reds') c'.flash).1.resp with mw := true } } : Live).core := by
-    obtain ⟨t1, t2, t3, t4, t5, t6, t7, t8⟩ := (core_eq_iff _ _).mp f1
-    simp only [Live.core]
-    rw [t1, t2, t3, t4, t5, t6, t7, t8]
-  have hr : (flashStage F rq.flash p (Live.start c reds) c.flash).1.resp =
-            (flashStage F rq.flash p' (Live.start c' reds') c'.flash).1.resp := congrArg Core.resp f1
-  unfold handle
-  rw [← ho]
-  cases hout : outcome rq c.methodInt c.indexRoute c.matched with
-  | notImplemented => exact ⟨hs, rfl, h.flash, rfl, hp, hp'⟩
-  | outside =>
-    refine ⟨hmw, ?_, f2, rfl, f3, f4⟩
-    simp only [errResp, hr]
-  | notFound =>
-    refine ⟨hmw, ?_, f2, rfl, f3, f4⟩
-    simp only [errResp, hr]
-  | notAllowed allow =>
-    refine ⟨hmw, ?_, f2, rfl, f3, f4⟩
-    simp only [errResp, hr]
-  | handler id vs =>
-    simp only [writeValues_params]
-    have rs := runScript_sim rq vs (flashStage F rq.flash p' (Live.start c' reds') c'.flash).2.vis p p' rq.script _ _ hmw f3 f4
-    rw [f2]
-    exact ⟨rs.1, finish_core rs.1, rfl, trivial, rs.2.1, rs.2.2⟩
-
 theorem ok_fields {F : RFacts} (h : F.ok = true) :
     (F.rFasthttp = true ∧ F.rBaseURI = true ∧ F.rPathOriginal = true ∧ F.rPath = true ∧ F.rDetectionPath = true ∧
      F.rTreePathHash = true ∧ F.rIndexRoute = true ∧ F.rIndexHandler = true ∧ F.rMethodInt = true ∧ F.rMatched = true) ∧
@@ -354,30 +327,223 @@ theorem released_clean {F : RFacts} (ok : F.ok = true) (r : Redirect) : (r.relea
   obtain ⟨_, _, ⟨c1, c2⟩, _⟩ := ok_fields ok
   exact ⟨by simp [Redirect.released, c2], by simp [Redirect.released, applyRelease_vis c1]⟩
 
+theorem release_clean {F : RFacts} (ok : F.ok = true) (c : Ctx) : (release F c).Clean := by
+  obtain ⟨_, ⟨b1, b2, b3, b4, b5⟩, _, _⟩ := ok_fields ok
+  exact ⟨by simp [release, b1], by simp [release, b2], by simp [release, b3], by simp [release, b4],
+         by simp [release, applyRelease_vis b5]⟩
+
+/-! ### a request in flight and a twin that agrees with it up to garbage -/
+
+theorem enter_entered (F : RFacts) (f : Flight) (reds : List Redirect) (p : Nat) :
+    (f.enter F reds p).1.entered = true := by
+  unfold Flight.enter
+  by_cases h : f.entered = true
+  · simp [h]
+  · simp only [h]
+    cases f.out <;> rfl
+
+theorem enter_of_entered (F : RFacts) {f : Flight} (h : f.entered = true) (reds : List Redirect) (p : Nat) :
+    f.enter F reds p = (f, reds) := by
+  unfold Flight.enter; simp [h]
+
+theorem enter_orig (F : RFacts) (f : Flight) (reds : List Redirect) (p : Nat) :
+    (f.enter F reds p).1.orig = f.orig := by
+  unfold Flight.enter
+  by_cases he : f.entered = true
+  · simp [he]
+  · simp only [he]; cases f.out <;> rfl
+
+theorem stepAct_entered (f : Flight) (reds : List Redirect) (p : Nat) :
+    (f.stepAct reds p).1.entered = f.entered := by
+  unfold Flight.stepAct
+  cases f.todo <;> rfl
+
+theorem stepAct_orig (f : Flight) (reds : List Redirect) (p : Nat) : (f.stepAct reds p).1.orig = f.orig := by
+  unfold Flight.stepAct
+  cases f.todo <;> rfl
+
+/-- what two flights of the same request must agree on for everything observable to agree: the
+    handler state up to garbage, the visible flash messages, what `Params` returns. Not compared: spare
+    capacity of slices, `c.values` beyond the matched route's slots, routing scratch, pools. -/
+structure Twin (f g : Flight) : Prop where
+  orig : f.orig = g.orig
+  rq : f.rq = g.rq
+  out : f.out = g.out
+  todo : f.todo = g.todo
+  entered : f.entered = g.entered
+  core : f.s.core = g.s.core
+  flash : f.fl.vis = g.fl.vis
+  params : f.entered = true → f.params = g.params
+  todoNil : f.entered = false → f.todo = []
+
+theorem acquire_twin {F : RFacts} (ok : F.ok = true) (rq : Req) {c0 c0' : Ctx} (h : c0.Clean) (h' : c0'.Clean) :
+    Twin (Flight.acquire F c0 rq) (Flight.acquire F c0' rq) := by
+  obtain ⟨_, _, _, ⟨d1, _, _, _, _, _⟩⟩ := ok_fields ok
+  obtain ⟨rsim, f1, f2⟩ := reset_sim ok rq h h'
+  refine ⟨rfl, ?_, ?_, rfl, rfl, ?_, ?_, ?_, ?_⟩
+  · simp [Flight.acquire, d1, f1, f2]
+  · simp only [Flight.acquire, d1, if_true, f1, f2, Option.getD_some]
+    rw [rsim.methodInt, rsim.indexRoute, rsim.matched]
+  · simp only [Flight.acquire, d1, if_true]
+    exact start_core rsim [] []
+  · simp only [Flight.acquire, d1, if_true]
+    exact rsim.flash
+  · intro he; simp [Flight.acquire] at he
+  · intro _; rfl
+
+theorem mw_core {s s' : Live} (h : s.core = s'.core) :
+    ({ s with resp := { s.resp with mw := true } } : Live).core = ({ s' with resp := { s'.resp with mw := true } } : Live).core := by
+  obtain ⟨t1, t2, t3, t4, t5, t6, t7, t8⟩ := (core_eq_iff _ _).mp h
+  simp only [Live.core]
+  rw [t1, t2, t3, t4, t5, t6, t7, t8]
+
+theorem enter_notImpl (F : RFacts) {f : Flight} (he : f.entered = false) (ho : f.out = .notImplemented)
+    (reds : List Redirect) (p : Nat) :
+    f.enter F reds p = ({ f with s := { f.s with reds := reds }, entered := true }, reds) := by
+  unfold Flight.enter
+  simp only [he, Bool.false_eq_true, if_false, ho]
+
+theorem enter_run (F : RFacts) {f : Flight} (he : f.entered = false) (ho : f.out ≠ .notImplemented)
+    (reds : List Redirect) (p : Nat) :
+    f.enter F reds p =
+      ({ f with s := { (flashStage F f.rq.flash p { f.s with reds := reds } f.fl).1 with
+                       resp := { (flashStage F f.rq.flash p { f.s with reds := reds } f.fl).1.resp with mw := true } },
+                fl := (flashStage F f.rq.flash p { f.s with reds := reds } f.fl).2, entered := true,
+                values := (match f.out with | .handler _ vs => writeValues vs f.values | _ => f.values),
+                todo := (match f.out with | .handler _ _ => f.rq.script | _ => []) },
+       (flashStage F f.rq.flash p { f.s with reds := reds } f.fl).1.reds) := by
+  unfold Flight.enter
+  simp only [he, Bool.false_eq_true, if_false]
+  cases hfo : f.out with
+  | notImplemented => exact absurd hfo ho
+  | _ => rfl
+
+theorem enter_twin (F : RFacts) (hw : F.lc.flashDecodeWipes = true) {f g : Flight} (t : Twin f g)
+    (reds reds' : List Redirect) (p p' : Nat) (hp : PoolClean reds) (hp' : PoolClean reds') :
+    Twin (f.enter F reds p).1 (g.enter F reds' p').1 ∧
+    PoolClean (f.enter F reds p).2 ∧ PoolClean (g.enter F reds' p').2 := by
+  by_cases he : f.entered = true
+  · have he' : g.entered = true := t.entered ▸ he
+    rw [enter_of_entered F he, enter_of_entered F he']
+    exact ⟨t, hp, hp'⟩
+  · have he0 : f.entered = false := by simpa using he
+    have he0' : g.entered = false := t.entered ▸ he0
+    by_cases ho : f.out = .notImplemented
+    · have ho' : g.out = .notImplemented := t.out ▸ ho
+      rw [enter_notImpl F he0 ho, enter_notImpl F he0' ho']
+      refine ⟨⟨t.orig, t.rq, t.out, t.todo, rfl, t.core, t.flash, ?_, ?_⟩, hp, hp'⟩
+      · intro _; simp only [Flight.params, ho, ho']
+      · intro h; cases h
+    · have ho' : g.out ≠ .notImplemented := t.out ▸ ho
+      have hc : ({ f.s with reds := reds } : Live).core = ({ g.s with reds := reds' } : Live).core := t.core
+      obtain ⟨f1, f2, f3, f4⟩ := flashStage_sim F hw f.rq.flash p p' { f.s with reds := reds } { g.s with reds := reds' }
+        f.fl g.fl hc t.flash hp hp'
+      rw [enter_run F he0 ho, enter_run F he0' ho', ← t.rq]
+      refine ⟨⟨t.orig, ?_, t.out, ?_, rfl, mw_core f1, f2, ?_, ?_⟩, f3, f4⟩
+      · rfl
+      · simp only [t.out]
+      · intro _
+        simp only [Flight.params, t.out]
+        cases g.out <;> simp [writeValues_params]
+      · intro h; cases h
+
+theorem stepAct_nil {f : Flight} (h : f.todo = []) (reds : List Redirect) (p : Nat) : f.stepAct reds p = (f, reds) := by
+  unfold Flight.stepAct; rw [h]
+
+theorem stepAct_cons {f : Flight} {a : Act} {rest : List Act} (h : f.todo = a :: rest) (reds : List Redirect) (p : Nat) :
+    f.stepAct reds p = ({ f with s := act f.rq f.params f.fl.vis p { f.s with reds := reds } a, todo := rest },
+                        (act f.rq f.params f.fl.vis p { f.s with reds := reds } a).reds) := by
+  unfold Flight.stepAct; rw [h]
+
+theorem stepAct_twin {f g : Flight} (t : Twin f g) (reds reds' : List Redirect) (p p' : Nat)
+    (hp : PoolClean reds) (hp' : PoolClean reds') :
+    Twin (f.stepAct reds p).1 (g.stepAct reds' p').1 ∧
+    PoolClean (f.stepAct reds p).2 ∧ PoolClean (g.stepAct reds' p').2 := by
+  cases hgt : g.todo with
+  | nil =>
+    rw [stepAct_nil (t.todo ▸ hgt), stepAct_nil hgt]
+    exact ⟨t, hp, hp'⟩
+  | cons a rest =>
+    have hft : f.todo = a :: rest := t.todo ▸ hgt
+    have he : f.entered = true := by
+      cases h : f.entered with
+      | true => rfl
+      | false => have := t.todoNil h; rw [hft] at this; cases this
+    have hpar := t.params he
+    have hc : ({ f.s with reds := reds } : Live).core = ({ g.s with reds := reds' } : Live).core := t.core
+    have as := act_sim' p p' { f.s with reds := reds } { g.s with reds := reds' } a t.rq hpar t.flash hc hp hp'
+    rw [stepAct_cons hft, stepAct_cons hgt]
+    refine ⟨⟨t.orig, t.rq, t.out, rfl, t.entered, as.1, t.flash, ?_, ?_⟩, as.2.1, as.2.2⟩
+    · intro _
+      have := hpar
+      simp only [Flight.params] at this ⊢
+      exact this
+    · intro h; rw [he] at h; cases h
+
+theorem resp_twin {f g : Flight} (t : Twin f g) : f.resp = g.resp := by
+  have e6 : f.s.resp = g.s.resp := congrArg Core.resp t.core
+  unfold Flight.resp
+  rw [t.out, t.rq, e6]
+  cases g.out <;> simp [finish_core t.core]
+
+theorem retire_obs (F : RFacts) {f g : Flight} (t : Twin f g) (reds reds' : List Redirect) (p p' : Nat) :
+    (f.retire F reds p).2.2 = (g.retire F reds' p').2.2 := by
+  have e7 : f.s.seen = g.s.seen := congrArg Core.seen t.core
+  simp only [Flight.retire, resp_twin t, e7]
+
+theorem atEnd_clean (f : Flight) {reds : List Redirect} (hp : PoolClean reds) (p : Nat) : PoolClean (f.atEnd reds p).reds := by
+  unfold Flight.atEnd
+  split
+  · exact (runScript_sim f.rq f.params f.fl.vis p p plantActs { f.s with reds := reds } { f.s with reds := reds } rfl hp hp).2.1
+  · exact hp
+
+theorem retire_clean {F : RFacts} (ok : F.ok = true) (f : Flight) {reds : List Redirect} (hp : PoolClean reds) (p : Nat) :
+    (f.retire F reds p).1.Clean ∧ PoolClean (f.retire F reds p).2.1 := by
+  obtain ⟨_, ⟨_, _, b3, _, _⟩, _, ⟨_, d2, d3, d4, d5, _⟩⟩ := ok_fields ok
+  have hc := atEnd_clean f hp p
+  refine ⟨?_, ?_⟩
+  · simp only [Flight.retire, d2, d3, Bool.and_self, if_true]
+    exact release_clean ok _
+  · simp only [Flight.retire, d4, d5, b3, Bool.and_self, if_true]
+    split
+    · intro r hr
+      rcases List.mem_cons.mp hr with rfl | hr
+      · exact released_clean ok _
+      · exact hc r hr
+    · exact hc
+
+theorem serveBad_clean {F : RFacts} (ok : F.ok = true) (c0 : Ctx) {reds : List Redirect} (hp : PoolClean reds) (rq : Req) (p : Nat) :
+    (serveBad F c0 reds rq p).1.Clean ∧ PoolClean (serveBad F c0 reds rq p).2 :=
+  retire_clean ok _ hp p
+
+/-- Completing two twins without interruption (each against its own clean redirect pool, with its own
+    pool choices): same observation; what goes back to the pools is clean. -/
+theorem complete_sim {F : RFacts} (ok : F.ok = true) {f g : Flight} (t : Twin f g)
+    {reds reds' : List Redirect} (p p' : Nat) (hp : PoolClean reds) (hp' : PoolClean reds') :
+    (f.complete F reds p).2.2 = (g.complete F reds' p').2.2 ∧
+    (f.complete F reds p).1.Clean ∧ PoolClean (f.complete F reds p).2.1 := by
+  obtain ⟨_, _, _, ⟨_, _, _, _, _, d6⟩⟩ := ok_fields ok
+  obtain ⟨te, pe, pe'⟩ := enter_twin F d6 t reds reds' p p' hp hp'
+  have hent := enter_entered F f reds p
+  have hc : ({ (f.enter F reds p).1.s with reds := (f.enter F reds p).2 } : Live).core =
+            ({ (g.enter F reds' p').1.s with reds := (g.enter F reds' p').2 } : Live).core := te.core
+  have rs := runScript_sim' p p' { (f.enter F reds p).1.s with reds := (f.enter F reds p).2 }
+    { (g.enter F reds' p').1.s with reds := (g.enter F reds' p').2 } te.rq (te.params hent) te.flash te.todo hc pe pe'
+  unfold Flight.complete
+  refine ⟨?_, retire_clean ok _ rs.2.1 p⟩
+  apply retire_obs
+  refine ⟨te.orig, te.rq, te.out, rfl, te.entered, rs.1, te.flash, ?_, fun _ => rfl⟩
+  intro _
+  have := te.params hent
+  simp only [Flight.params] at this ⊢
+  exact this
+
 /-- One request on any clean pooled context with any clean redirect pool: the observation does not
     depend on which objects those were, and everything handed back to the pools is clean again. -/
 theorem serveOn_sim {F : RFacts} (ok : F.ok = true) (rq : Req) (p p' : Nat) {c0 c0' : Ctx} {reds reds' : List Redirect}
     (h : c0.Clean) (h' : c0'.Clean) (hp : PoolClean reds) (hp' : PoolClean reds') :
     (serveOn F c0 reds rq p).2.2 = (serveOn F c0' reds' rq p').2.2 ∧
-    (serveOn F c0 reds rq p).1.Clean ∧ PoolClean (serveOn F c0 reds rq p).2.1 := by
-  obtain ⟨_, ⟨b1, b2, b3, b4, b5⟩, _, ⟨d1, d2, d3, d4, d5, d6⟩⟩ := ok_fields ok
-  obtain ⟨rsim, f1, f2⟩ := reset_sim ok rq h h'
-  have hs := handle_sim F d6 (reset F rq c0) (reset F rq c0') reds reds' rq p p' rsim hp hp'
-  obtain ⟨s1, s2, _, _, s5, _⟩ := hs
-  refine ⟨?_, ?_, ?_⟩
-  · simp only [serveOn, d1, if_true, f1, f2, Option.getD_some]
-    have := congrArg Core.seen s1
-    simp only [Live.core] at this
-    rw [s2, this]
-  · simp only [serveOn, d1, d2, d3, if_true, f1, Option.getD_some, Bool.and_self]
-    exact ⟨by simp [release, b1], by simp [release, b2], by simp [release, b3], by simp [release, b4],
-           by simp [release, applyRelease_vis b5]⟩
-  · simp only [serveOn, d1, d4, d5, b3, if_true, f1, Option.getD_some, Bool.and_self]
-    split
-    · intro r hr
-      rcases List.mem_cons.mp hr with rfl | hr
-      · exact released_clean ok _
-      · exact s5 r hr
-    · exact s5
+    (serveOn F c0 reds rq p).1.Clean ∧ PoolClean (serveOn F c0 reds rq p).2.1 :=
+  complete_sim ok (acquire_twin ok rq h h') p p' hp hp'
 
 end C05
